@@ -135,6 +135,8 @@ fn main() {
         "damage" => {
             if let Some(img) = arg(&args, "--replay") {
                 damage::replay(img, arg(&args, "--history").unwrap());
+            } else if args.iter().any(|a| a == "--refusals") {
+                damage::refusal_campaign(arg_u64(&args, "--seed", 1), arg(&args, "--bases").unwrap(), arg_u64(&args, "--per-image", 12));
             } else {
                 damage::campaign(arg_u64(&args, "--seed", 1), arg(&args, "--bases").unwrap(), arg_u64(&args, "--count", 500), arg_u64(&args, "--max-ops", 10), arg(&args, "--keepdir").unwrap());
             }
